@@ -230,17 +230,17 @@ def connectAll (c : Circuit) : List (List Name × List Name) → Circuit × Outc
 def addBlackbox (c : Circuit) (bb : BBox) (inst : Name) (conns : List (Name × List Name))
     (ord : Ord := id) : Circuit × Outcome :=
   if (c.bbs.lookup inst).isSome then (c, .valueError) else
-  let c0 := c.setBB inst bb
   let rec pins (c : Circuit) (t : String) : List Name → Circuit × Outcome
     | [] => (c, .ok)
     | p :: ps =>
       match c.add { n := inst ++ "." ++ p, ty := t } with
       | (c', .ok, _) => pins c' t ps
       | (c', o, _) => (c', o)
-  match pins c0 "bb_input" (ord bb.ins) with
+  match pins c "bb_input" (ord bb.ins) with
   | (c1, .ok) =>
     (match pins c1 "bb_output" (ord bb.outs) with
-     | (c2, .ok) =>
+     | (c2', .ok) =>
+       let c2 := c2'.setBB inst bb
        let rec go (c : Circuit) : List (Name × List Name) → Circuit × Outcome
          | [] => (c, .ok)
          | (p, ns) :: rest =>
@@ -313,14 +313,15 @@ def removeUnloadedGo (inputs : Bool) (ord : Ord) :
     let n := wl.getLast!
     let wl0 := wl.dropLast
     let app := (ord (c.fanin n)).filter (fun fi =>
-      !(!inputs && (match c.ty? fi with | some t => (T.removeUnloadedL 1).contains t | none => false))
+      !(!inputs && (match c.ty? fi with | some t => (T.removeUnloadedL 2).contains t | none => false))
       && !c.isOut fi && (c.fanout fi).length == 1)
     removeUnloadedGo inputs ord fuel (c.removeNode n) (wl0 ++ app) (n :: removed)
 
 def removeUnloaded (c : Circuit) (inputs : Bool := false) (ord : Ord := id) : Option (Circuit × List Name) :=
   let init := (c.nodes.filter (fun p =>
       (match p.2.ty with | some t => !(T.removeUnloadedL 0).contains t | none => true)
-      && !(p.2.out.getD false) && (c.fanout p.1).isEmpty)).map (·.1)
+      && !(p.2.out.getD false) && (c.fanout p.1).isEmpty
+      && (inputs || (match p.2.ty with | some t => !(T.removeUnloadedL 1).contains t | none => true)))).map (·.1)
   removeUnloadedGo inputs ord (2 * c.nodes.length + c.edges.length + 2) c init []
 
 end Circuit
